@@ -3,6 +3,8 @@
 //   C13  results do not depend on the power-on state (outcome equality + invariants before reset)
 //   C06  a binary behaves identically on hextb and on hexsim
 #include "sim/driver.hpp"
+#include <fcntl.h>
+#include <sys/stat.h>
 #include "model/hexref.hpp"
 
 #include <verilated.h>
@@ -587,6 +589,36 @@ public:
     return o;
   }
 
+  // Second layer (fidelity of this simulation, never a verdict): a sample of judged C06 pairs is written
+  // out so that bin/check can run the real hextb and hexsim executables on the same binary, input and
+  // files (with standard input really closed where the plan says so) and compare what they do with what
+  // the in-process runs did.
+  int obsLeft = -1;
+  void dumpObs(const PlanView &v, bool closed, uint64_t watchdog, const ToolOutcome &tb, const ToolOutcome &hs) {
+    if (obsLeft < 0) { const char *n = getenv("VERIF_OBS_COUNT"); obsLeft = n ? std::atoi(n) : 0; }
+    const char *path = getenv("VERIF_OBS_FILE");
+    if (obsLeft <= 0 || !path || v.file.size() > 20000 || v.hasPlant || v.jumpTo) return;
+    if (tb.t.kind == sim::Trapped::CRASHED || hs.t.kind == sim::Trapped::CRASHED || tb.hung) return;
+    if (ss.out.overflowed) return;
+    { struct stat st; if (::stat(path, &st) == 0 && st.st_size > (32 << 20)) return; }
+    obsLeft--;
+    Json j = Json::object();
+    j["file_hex"] = sim::toHex(v.file); j["stdin_hex"] = sim::toHex(v.input); j["stdin_closed"] = closed;
+    j["seed"] = (unsigned long long)v.poweron; j["max_cycles"] = (unsigned long long)watchdog;
+    Json si = Json::object(); for (int k = 0; k < 8; k++) if (v.siminPresent[k]) si["simin" + std::to_string(k)] = sim::toHex(v.simin[k]);
+    j["simin"] = si;
+    auto put = [&](const char *name, const ToolOutcome &t) {
+      Json e = Json::object(); e["status"] = t.status8(); e["stdout_hex"] = sim::toHex(t.out);
+      Json f = Json::object(); for (auto &kv : t.files) f[kv.first] = sim::toHex(kv.second); e["files"] = f;
+      e["returned"] = t.t.kind == sim::Trapped::RETURNED || t.t.kind == sim::Trapped::EXITED;
+      j[name] = e;
+    };
+    put("hextb", tb); put("hexsim", hs);
+    std::string line = j.dump() + "\n";
+    int fd = ::open(path, O_WRONLY | O_CREAT | O_APPEND, 0644);
+    if (fd >= 0) { ssize_t w = ::write(fd, line.data(), line.size()); (void)w; ::close(fd); }
+  }
+
   Outcome execC06(const PlanView &v, const Classified &c, Outcome &o) {
     if (!c.judged) { o.note = "skipped:" + c.why; o.hash = sim::g_log.hashHex(); return o; }
     uint64_t watchdog = c.steps + 64;
@@ -606,6 +638,7 @@ public:
     sim::fs::setStdinClosed(closed);
     ToolOutcome hs = runHexsim(v, 0);
     sim::fs::setStdinClosed(false);
+    dumpObs(v, closed, watchdog, tb, hs);
     o.simInstr = c.steps;
     sim::g_log.evs("hexsim", hs.str());
     o.nontrivial = c.syscalls > 0;
